@@ -177,7 +177,7 @@ def universe(rep, family, depth=1, emit=True, maxlen=""):
     def one(k):
         return tlc.model_check("MC_Peg", env=dict(VT_FAMILY=family, VT_DEPTH=str(depth), VT_SHARD=str(k),
                                                    VT_NSHARDS=str(n), VT_EMIT="1" if emit else "0", VT_MAXLEN=str(maxlen)),
-                               workers=1, timeout=3000)
+                               workers=1, timeout=3000 if depth == 1 else 9000)
 
     with ThreadPoolExecutor(max_workers=min(n, tlc.NCPU)) as ex:
         rs = list(ex.map(one, range(n)))
